@@ -14,6 +14,7 @@ import EinoV.Proofs.C02Just
 import EinoV.Proofs.C02Complete
 import EinoV.Proofs.C02Exact
 import EinoV.Proofs.C02EagerComplete
+import EinoV.Proofs.C02EagerExact
 import EinoV.Gen.FactsC02
 import EinoV.Expected.C02
 import EinoV.Proofs.C02Workflow
@@ -414,6 +415,21 @@ theorem workflow_enabled_nodes_are_submitted {V} (ops : ValOps V) (r : Runner V)
     (h : EReach ops r pick x cm running bs comp) :
     ∀ n, Enabled r (histC r x bs comp) n → n ∈ bs.flatten.map (·.1) :=
   ereach_complete ops r wf wf2 pick x cm running bs comp h
+
+open EinoV.Engine.DagRun in
+/-- **workflow_input_is_exact.** Whenever the eager loop, in a state it passes through, processes a
+    completion and submits new tasks, the input of each of them is the zero value / the single
+    value / the merge of the outputs of *exactly* those data predecessors among the completions
+    processed so far that routed to it (for the first batch: START's output). -/
+theorem workflow_input_is_exact {V} (ops : ValOps V) (r : Runner V) (wf : DagWF r) (wf2 : DagWF2 r) (pick : Pick V) (x : V)
+    (cm cm' : Chans V) (running ts : List (Key × V)) (bs : List (List (Key × V))) (comp : List Key)
+    (t : Key × V) (d : Done V)
+    (h : EReach ops r pick x cm running bs comp)
+    (hp : running[pick running % running.length]? = some t)
+    (hce : collectOne (execOne r t) = .ok d)
+    (hc : calcNext ops r cm [d] = .ok (cm', .tasks ts)) :
+    ∀ n v, (n, v) ∈ ts → ExactIn ops r (histC r x (bs ++ [ts]) (comp ++ [t.1])) n v :=
+  ereach_exact ops r wf wf2 pick x cm cm' running ts bs comp t d h hp hce hc
 
 open EinoV.Engine.DagRun in
 /-- **workflow_run_complete.** On the outcome of `runEager`: when the run stops (result, error, or
